@@ -130,6 +130,20 @@ C11view(f, v) ==
                      \/ \E i \in 1..f.n : i <= Len(v.blocks) /\
                           v.blocks[i] # (IF IsLive(f.table[i]) THEN ContentOf(f, i) ELSE 0)), "C11:blocks")
 
+\* ---------------------------------------------------------------- table relations
+\* the observed table step of an accepted add / remove / replace is one TdfTableRel admits (those
+\* relations preserve the structural invariant for N = 14 and arbitrary sizes: TdfTableInd)
+TableOfN(f) == [ty |-> [i \in 1..f.n |-> f.table[i].type], off |-> [i \in 1..f.n |-> f.table[i].offset],
+                sz |-> [i \in 1..f.n |-> f.table[i].size], flen |-> FileLen(f)]
+TRel(n) == INSTANCE TdfTableRel WITH N <- n, TE <- HDR + ENT * n
+StepInRelation(pre, o, f) ==
+  LET n == pre.n  x == TableOfN(pre)  y == TableOfN(f) IN
+  IF f.n # n \/ Len(f.table) # n THEN FALSE
+  ELSE IF o.op = "remove" THEN TRel(n)!RemRel(x, y, o.t)
+  ELSE IF o.op = "add" \/ (o.op = "set" /\ ~HasType(pre, o.b.t)) THEN TRel(n)!AddRel(x, y, o.b.t, o.b.sz)
+  ELSE LET mid == RemoveFile(pre, o.b.t) IN
+       TRel(n)!RemRel(x, TableOfN(mid), o.b.t) /\ TRel(n)!AddRel(TableOfN(mid), y, o.b.t, o.b.sz)
+
 \* ---------------------------------------------------------------- one step
 StepClauses(pre, ev, o, out, f, g2) ==
   LET ob == ev.obs
@@ -184,6 +198,7 @@ StepClauses(pre, ev, o, out, f, g2) ==
                a.type # b.type \/ (IsLive(a) /\ a # b) \/ (~IsLive(a) /\ pre.s.g.compact /\ a.offset # b.offset),
           "conf:table")
   \cup If(sound /\ ok /\ exp /\ mut /\ FileLen(out.f) # d.flen, "conf:file_length")
+  \cup If(sound /\ ok /\ exp /\ mut /\ FreeBeyondLive(pre.s.f) /\ ~StepInRelation(pre.s.f, o, f), "conf:table_relation")
 
 \* ---------------------------------------------------------------- behaviour
 \* state: s = [s |-> session state, sha, flen, me]  (me = object table last seen)
